@@ -187,6 +187,9 @@ structure FState where
   w : World
   middleware : List HSpec := []
   pending : List HSpec := []
+  /-- `FR` was given: the application's ReturnHandler records the raw results and writes nothing.  Value-returning
+      (`r`) handlers are accepted only then (without it the default table would render them: property C14) -/
+  recording : Bool := false
 
 def flameSession (args : List String) (lines : List (List String)) : List String :=
   match args with
@@ -198,17 +201,19 @@ def flameSession (args : List String) (lines : List (List String)) : List String
         match l with
         | ["FM", ty, v] => "ok" :: go { st with w := st.w.mapApp (natOf ty) (natOf v) } rest
         | ["FMT", ty, _, v] => "ok" :: go { st with w := st.w.mapApp (natOf ty) (natOf v) } rest
-        | ["FR"] => "ok" :: go st rest     -- a recording ReturnHandler (a type outside the universe) in the app scope
+        | ["FR"] => "ok" :: go { st with recording := true } rest   -- (a type outside the universe) in the app scope
         | ["FV", ty] =>
           let vs := valueSet U st.w.app (natOf ty)
           (if vs.isEmpty then "none" else s!"val {showSet vs}") :: go st rest
         | "U" :: spec =>
           match parseHandler spec with
-          | some h => "ok" :: go { st with middleware := st.middleware ++ [h] } rest
+          | some h => if h.rtypes.isEmpty || st.recording then "ok" :: go { st with middleware := st.middleware ++ [h] } rest
+                      else "bad-op" :: go st rest
           | none => "bad-op" :: go st rest
         | "H" :: spec =>
           match parseHandler spec with
-          | some h => "ok" :: go { st with pending := st.pending ++ [h] } rest
+          | some h => if h.rtypes.isEmpty || st.recording then "ok" :: go { st with pending := st.pending ++ [h] } rest
+                      else "bad-op" :: go st rest
           | none => "bad-op" :: go st rest
         | ["RQ"] =>
           let k := st.w.reqs.length
